@@ -317,6 +317,8 @@ typedef struct {
     size_t byte_cap;       /* byte-value class only for seeds up to this size (0 = no cap) */
     const char *const *only; /* optional list of seed names (prefix match up to ':') */
     int max_ok_rc;         /* largest rc that counts as documented success */
+    const char *const *quick_only; /* quick tier: only these seeds (thorough: all seeds of the kinds) */
+    const char *const *byte_only;  /* quick tier: byte-value class only for these seeds; thorough: 255 values for these, 8 for the others */
 } entry_t;
 
 static const char *const lk_cert_seeds[] = { "EC/256_EC.pem", "RSA/1024_RSA.pem", "EC/ED25519.pem", NULL };
@@ -325,16 +327,23 @@ static const char *const lk_ca_seeds[] = { "EC/256_EC_CA.pem", "RSA/1024_RSA_CA.
 static const char *const x509data_der_seeds[] = { "EC/256_EC.pem", "RSA/2048_RSA.pem", "EC/ED25519.pem", "RSA/2048_RSA_PSS.pem", "embedded/rich_ec256.der",
     "RSA/2048_RSA_CHAIN.pem", NULL };
 
+static const char *const x509_quick_seeds[] = { "EC/256_EC.pem", "RSA/2048_RSA.pem", "EC/ED25519.pem", "RSA/2048_RSA_PSS.pem", "embedded/rich_ec256.der",
+    "RSA/1024_RSA_MD4.pem", "ECDH_RSA/ALL_ECDH-RSA_CAS.pem", "EC/ALL_EC_CAS_EXCEPT_P192_P224_AND_P521.pem", NULL };
+static const char *const pem_cert_byte_seeds[] = { "EC/256_EC.pem", "RSA/1024_RSA.pem", "EC/ED25519.pem", "RSA/2048_RSA_PSS.pem", "embedded/rich_ec256.pem",
+    "ECDH_RSA/ALL_ECDH-RSA_CAS.pem", NULL };
+static const char *const pem_any_byte_seeds[] = { "EC/256_EC_KEY.pem", "RSA/1024_RSA_KEY.pem", "EC/ED25519_KEY.pem", "EC/256_EC.pem", "RSA/2048_RSA_PUB.pem",
+    "EC/256_EC_PUB.pem", "DH/dh512.pem", "embedded/rsa1024_des3.pem", "embedded/rsa1024_aes128.pem", "embedded/ec256_des3.pem",
+    "RSA/2048_RSA_KEY_encrypted.pem", NULL };
 #define STORE (CERT_STORE_UNPARSED_BUFFER | CERT_STORE_DN_BUFFER)
 static const entry_t entries[] = {
-    { "psX509ParseCert/flags0", F_X509, 0, NULL, KB(K_CERT_DER), 0, C_ALL, 0, NULL, INT_MAX },
+    { "psX509ParseCert/flags0", F_X509, 0, NULL, KB(K_CERT_DER), 0, C_ALL, 0, NULL, INT_MAX, x509_quick_seeds },
     { "psX509ParseCert/store", F_X509, STORE, NULL, KB(K_CERT_DER), 0, C_ALL, 0, NULL, INT_MAX },
-    { "psX509ParseCert/partial", F_X509, STORE | CERT_ALLOW_BUNDLE_PARTIAL_PARSE, NULL, KB(K_CERT_DER), 0, C_ALL, 0, NULL, INT_MAX },
-    { "psX509ParseCertData/pem", F_X509DATA, STORE, NULL, KB(K_CERT_PEM), 1, C_ALL, 4000, NULL, INT_MAX },
+    { "psX509ParseCert/partial", F_X509, STORE | CERT_ALLOW_BUNDLE_PARTIAL_PARSE, NULL, KB(K_CERT_DER), 0, C_ALL, 0, NULL, INT_MAX, x509_quick_seeds },
+    { "psX509ParseCertData/pem", F_X509DATA, STORE, NULL, KB(K_CERT_PEM), 1, C_ALL, 4000, NULL, INT_MAX, NULL, pem_cert_byte_seeds },
     { "psX509ParseCertData/pem-partial", F_X509DATA, STORE | CERT_ALLOW_BUNDLE_PARTIAL_PARSE, NULL, KB(K_CERT_PEM), 1, C_IDENT | C_TRUNC | C_PEM, 0, NULL, INT_MAX },
     { "psX509ParseCertData/der", F_X509DATA, 0, NULL, KB(K_CERT_DER), 1, C_IDENT | C_TRUNC | C_DER, 0, x509data_der_seeds, INT_MAX },
     { "psX509ParseCertData/unterminated", F_X509DATA, 0, NULL, KB(K_CERT_DER) | KB(K_CERT_PEM), 0, C_IDENT | C_RAW, 0, x509data_der_seeds, INT_MAX },
-    { "psPemCertBufToList", F_PEMLIST, 0, NULL, KB(K_CERT_PEM), 1, C_ALL, 4000, NULL, 0 },
+    { "psPemCertBufToList", F_PEMLIST, 0, NULL, KB(K_CERT_PEM), 1, C_ALL, 4000, NULL, 0, NULL, pem_cert_byte_seeds },
     { "psX509ParseCRL", F_CRL, 0, NULL, KB(K_CRL_DER), 0, C_ALL | C_RAW3, 0, NULL, 0 },
     { "psOcspParseResponse", F_OCSP, 0, NULL, KB(K_OCSP_DER), 0, C_ALL | C_RAW3, 0, NULL, 0 },
     { "psPkcs8ParsePrivBin", F_P8, 0, NULL, KB(K_P8_DER), 0, C_ALL | C_RAW3, 0, NULL, INT_MAX },
@@ -342,12 +351,12 @@ static const entry_t entries[] = {
     { "psRsaParsePkcs1PrivKey", F_RSAPRIV, 0, NULL, KB(K_RSAKEY_DER), 0, C_ALL | C_RAW3, 0, NULL, INT_MAX },
     { "psEccParsePrivKey", F_ECPRIV, 0, NULL, KB(K_ECKEY_DER), 0, C_ALL | C_RAW3, 0, NULL, INT_MAX },
     { "psEd25519ParsePrivKey", F_EDPRIV, 0, NULL, KB(K_P8_DER), 0, C_ALL | C_RAW3, 0, NULL, INT_MAX },
-    { "psParseUnknownPrivKeyMem", F_UNKPRIV, 0, NULL, KB(K_RSAKEY_DER) | KB(K_ECKEY_DER) | KB(K_P8_DER) | KB(K_MISC_DER), 0, C_ALL, 700, NULL, 3 },
-    { "psParseUnknownPrivKeyMem/pass", F_UNKPRIV, 0, C09_PASSWORD, KB(K_P8E_DER), 0, C_IDENT | C_TRUNC | C_DER, 0, NULL, 3 },
+    { "psParseUnknownPrivKeyMem", F_UNKPRIV, 0, NULL, KB(K_RSAKEY_DER) | KB(K_ECKEY_DER) | KB(K_P8_DER) | KB(K_MISC_DER), 0, C_ALL, 700, NULL, 16 },
+    { "psParseUnknownPrivKeyMem/pass", F_UNKPRIV, 0, C09_PASSWORD, KB(K_P8E_DER), 0, C_IDENT | C_TRUNC | C_DER, 0, NULL, 16 },
     { "psPkcs12ParseMem", F_P12, 0, C09_PASSWORD, KB(K_P12), 0, C_ALL, 0, NULL, 0 },
     { "matrixSslLoadPkcs12Mem", F_LOADP12, 0, C09_PASSWORD, KB(K_P12), 0, C_ALL, 0, NULL, 0 },
-    { "psPemDecode", F_PEMDEC, 0, NULL, KB(K_KEY_PEM) | KB(K_CERT_PEM) | KB(K_PUB_PEM) | KB(K_MISC_PEM) | KB(K_ENCKEY_PEM), 1, C_ALL, 2000, NULL, 0 },
-    { "psPemDecode/pass", F_PEMDEC, 0, C09_PASSWORD, KB(K_KEY_PEM) | KB(K_ENCKEY_PEM), 1, C_ALL, 1000, NULL, 0 },
+    { "psPemDecode", F_PEMDEC, 0, NULL, KB(K_KEY_PEM) | KB(K_CERT_PEM) | KB(K_PUB_PEM) | KB(K_MISC_PEM) | KB(K_ENCKEY_PEM), 1, C_ALL, 2000, NULL, 0, NULL, pem_any_byte_seeds },
+    { "psPemDecode/pass", F_PEMDEC, 0, C09_PASSWORD, KB(K_KEY_PEM) | KB(K_ENCKEY_PEM), 1, C_ALL, 2000, NULL, 0, NULL, pem_any_byte_seeds },
     { "psPemDecode/unterminated", F_PEMDEC, 0, C09_PASSWORD, KB(K_ENCKEY_PEM), 0, C_IDENT | C_RAW | C_PEM, 0, NULL, 0 },
     { "psPemTryDecode", F_PEMTRY, 0, C09_PASSWORD, KB(K_KEY_PEM) | KB(K_ENCKEY_PEM) | KB(K_PUB_PEM) | KB(K_CERT_PEM), 1, C_IDENT | C_TRUNC | C_PEM | C_RAW, 0, NULL, 0 },
     { "matrixSslLoadKeysMem/cert-pem", F_LOADKEYS, 0, NULL, KB(K_CERT_PEM), 1, C_ALL, 0, lk_cert_seeds, 0 },
@@ -385,6 +394,10 @@ static int entry_takes(const entry_t *E, const seed_t *s)
         return 0;
     }
     if (E->only && !seed_in_list(s, E->only))
+    {
+        return 0;
+    }
+    if (!thorough && E->quick_only && !seed_in_list(s, E->quick_only))
     {
         return 0;
     }
@@ -741,7 +754,7 @@ static int run_entry(const entry_t *E, unsigned char *in, size_t len)
             {
                 w_cert_chain("keys.identity.cert", id->cert, STORE, 1);
             }
-            w_cert_chain("keys.CAcerts", keys->CAcerts, STORE, 1);
+            w_cert_chain("keys.CAcerts", keys->CAcerts, 0, 1);
         }
         matrixSslDeleteKeys(keys);
         break;
@@ -864,10 +877,11 @@ static void layout_of(const entry_t *E, int si, const dtree_t *t, layout_t *L)
     }
     {
         const seed_t *s = &seeds[si];
-        L->vals = (thorough && s->len <= 2048) ? 255 : 8;
+        int listed = E->byte_only == NULL || seed_in_list(s, E->byte_only);
+        L->vals = (thorough && s->len <= 2048 && listed) ? 255 : 8;
         if (E->classes & C_IDENT) L->n_ident = 1;
         if (E->classes & C_TRUNC) L->n_trunc = (long) s->len;
-        if ((E->classes & C_BYTE) && (E->byte_cap == 0 || s->len <= E->byte_cap)) L->n_byte = (long) s->len * L->vals;
+        if ((E->classes & C_BYTE) && (E->byte_cap == 0 || s->len <= E->byte_cap) && (thorough || listed)) L->n_byte = (long) s->len * L->vals;
         if ((E->classes & C_DER) && !s->text && t) L->n_der = (long) t->count * DOP_PER_NODE;
         if ((E->classes & C_PEM) && s->text) L->n_pem = PEM_NEDITS;
         L->total = L->n_ident + L->n_trunc + L->n_byte + L->n_der + L->n_pem;
@@ -898,6 +912,7 @@ static void seed_prepare(int si)
 
 /* Build case idx of (entry, seed). Returns 1 when a case exists (0 = not applicable / duplicate of the seed).
  * top: flood-control class (0 ident 1 trunc 2 byte 3 der 4 pem 5 raw). */
+static int g_sub; /* flood-control sub bucket of the last built case: DER op / byte value index */
 static int build_case(const entry_t *E, int si, long idx, mbuf_t *out, const char **cls, int *top, char *detail, size_t dn)
 {
     layout_t L;
@@ -905,6 +920,7 @@ static int build_case(const entry_t *E, int si, long idx, mbuf_t *out, const cha
     seed_prepare(si);
     layout_of(E, si, &cur_tree, &L);
     detail[0] = 0;
+    g_sub = 0;
     mb_reset(out);
     if (idx < 0 || idx >= L.total)
     {
@@ -947,6 +963,7 @@ static int build_case(const entry_t *E, int si, long idx, mbuf_t *out, const cha
         int v = (int) (idx % L.vals);
         unsigned char x = s->p[off], y;
         *cls = "byte"; *top = 2;
+        g_sub = v;
         if (L.vals == 255)
         {
             y = (unsigned char) (x + 1 + v);
@@ -969,6 +986,7 @@ static int build_case(const entry_t *E, int si, long idx, mbuf_t *out, const cha
     if (idx < L.n_der)
     {
         *top = 3;
+        g_sub = (int) (idx % DOP_PER_NODE);
         return der_mutate(&cur_tree, s->p, s->len, (int) (idx / DOP_PER_NODE), (int) (idx % DOP_PER_NODE), out, tmpa, tmpb, tmpc, cls, detail, dn);
     }
     idx -= L.n_der;
@@ -982,7 +1000,7 @@ typedef struct { int viol; char key[160]; char what[320]; long idx; } bfind_t;
 typedef struct {
     volatile long cur;
     volatile int done;
-    long n_ok, n_err, n_na;
+    long n_ok, n_err, n_na, n_skip;
     uint64_t rch;
     int nfind;
     long find_dropped;
@@ -999,7 +1017,24 @@ static void arm_timer(int s)
     setitimer(ITIMER_REAL, &it, NULL);
 }
 
-/* run one case in this process; returns 0 ok / 1 violation (f filled) / -1 not applicable */
+/* flood control: (top,sub) buckets that are no longer executed in the current work group */
+typedef struct { int top, sub; } bucket_t;
+static bucket_t skip_b[64];
+static int nskip_b;
+static int bucket_skipped(int top, int sub)
+{
+    int i;
+    for (i = 0; i < nskip_b; i++)
+    {
+        if (skip_b[i].top == top && skip_b[i].sub == sub)
+        {
+            return 1;
+        }
+    }
+    return 0;
+}
+
+/* run one case in this process; returns 0 ok / 1 violation (f filled) / -1 not applicable / -2 skipped by flood control */
 static int run_case(const entry_t *E, int si, long idx, bfind_t *f, int *ok, int *rcout, int verbose)
 {
     mbuf_t m = { obuf, 0 };
@@ -1011,6 +1046,10 @@ static int run_case(const entry_t *E, int si, long idx, bfind_t *f, int *ok, int
     if (!build_case(E, si, idx, &m, &cls, &top, detail, sizeof(detail)))
     {
         return -1;
+    }
+    if (nskip_b && bucket_skipped(top, g_sub))
+    {
+        return -2;
     }
     if (si != RAW_SEED)
     {
@@ -1131,7 +1170,7 @@ static void child_run(const entry_t *E, int si, long lo, long hi, int verbose)
         r = run_case(E, si, i, &f, &ok, &rc, verbose);
         if (r < 0)
         {
-            bsh->n_na++;
+            if (r == -2) bsh->n_skip++; else bsh->n_na++;
             continue;
         }
         if (ok) bsh->n_ok++; else bsh->n_err++;
@@ -1249,55 +1288,81 @@ static void classify_crash(int st, char *kind, size_t kn, char *site, size_t sn,
         snprintf(kind, kn, "crash-exit%d", WEXITSTATUS(st));
         snprintf(line, ln, "child exited with status %d without finishing", WEXITSTATUS(st));
     }
-    /* first stack frame that belongs to the library */
-    for (p = capbuf; (p = strstr(p, "\n    #")) != NULL; p++)
+    if (strstr(capbuf, "env: live table full"))
     {
-        char fn[96], file[160];
-        char *in_ = strstr(p, " in "), *eol = strchr(p + 1, '\n');
-        size_t i = 0;
-        char *c;
-        if (!in_ || (eol && in_ > eol))
+        snprintf(kind, kn, "alloc-runaway");
+        snprintf(line, ln, "more than 262144 live allocations inside one parser call (unbounded loop)");
+    }
+    /* first stack frame of the first stack that belongs to the library: frames up to and including the last
+     * interceptor / allocator-seam frame are skipped */
+    {
+        struct { char fn[96], file[96]; int seam, harness; } fr[24];
+        int nfr = 0, i, start = 0;
+        p = strstr(capbuf, "\n    #0 ");
+        while (p && nfr < 24)
         {
-            continue;
-        }
-        in_ += 4;
-        while (*in_ && *in_ != ' ' && *in_ != '\n' && i < sizeof(fn) - 1)
-        {
-            fn[i++] = *in_++;
-        }
-        fn[i] = 0;
-        i = 0;
-        if (*in_ == ' ')
-        {
-            in_++;
-            while (*in_ && *in_ != '\n' && *in_ != ':' && i < sizeof(file) - 1)
+            char file[200];
+            char *in_ = strstr(p, " in "), *eol = strchr(p + 1, '\n');
+            size_t j = 0;
+            char *c;
+            if (strncmp(p, "\n    #", 6) || !in_ || (eol && in_ > eol))
             {
-                file[i++] = *in_++;
+                break;
+            }
+            in_ += 4;
+            while (*in_ && *in_ != ' ' && *in_ != '\n' && j < sizeof(fr[0].fn) - 1)
+            {
+                fr[nfr].fn[j++] = *in_++;
+            }
+            fr[nfr].fn[j] = 0;
+            j = 0;
+            if (*in_ == ' ')
+            {
+                in_++;
+                while (*in_ && *in_ != '\n' && *in_ != ':' && j < sizeof(file) - 1)
+                {
+                    file[j++] = *in_++;
+                }
+            }
+            file[j] = 0;
+            c = strrchr(file, '/');
+            c = c ? c + 1 : file;
+            snprintf(fr[nfr].file, sizeof(fr[nfr].file), "%s", file[0] == '(' ? "" : c);
+            fr[nfr].harness = !strncmp(c, "drv_c09", 7) || !strncmp(c, "c09_", 4) || !strcmp(c, "explore.c");
+            fr[nfr].seam = !strcmp(c, "env.c") || strstr(file, "libsanitizer") || strstr(file, "sanitizer_common") ||
+                !strncmp(fr[nfr].fn, "__interceptor", 13) || !strncmp(fr[nfr].fn, "__asan", 6) || !strncmp(fr[nfr].fn, "__ubsan", 7) ||
+                !strncmp(fr[nfr].fn, "__sanitizer", 11) || !strncmp(fr[nfr].fn, "__wrap_", 7);
+            nfr++;
+            p = eol;
+        }
+        for (i = 0; i < nfr && i < 10; i++)
+        {
+            if (fr[i].seam)
+            {
+                start = i + 1;
             }
         }
-        file[i] = 0;
-        if (!file[0] || file[0] == '(' || strstr(file, "libsanitizer") || strstr(file, "sanitizer_common") || !strncmp(fn, "__interceptor", 13) ||
-            !strncmp(fn, "__asan", 6) || !strncmp(fn, "__ubsan", 7) || !strncmp(fn, "__sanitizer", 11) || !strncmp(fn, "__wrap_", 7))
+        for (i = start; i < nfr; i++)
         {
-            continue;
-        }
-        c = strrchr(file, '/');
-        c = c ? c + 1 : file;
-        if (!strncmp(c, "drv_c09", 7) || !strncmp(c, "c09_", 4) || !strcmp(c, "env.c") || !strcmp(c, "explore.c"))
-        {
-            if (!site[0] || !strchr(site, ':'))
+            if (!fr[i].file[0])
             {
-                snprintf(site, sn, "harness:%s", fn);
+                continue;
+            }
+            if (fr[i].harness)
+            {
+                snprintf(site, sn, "harness:%s", fr[i].fn);
+            }
+            else
+            {
+                snprintf(site, sn, "%s:%s", fr[i].file, fr[i].fn);
             }
             break;
         }
-        snprintf(site, sn, "%s:%s", c, fn);
-        break;
     }
 }
 
 /* ------------------------------------------------------------ statistics */
-typedef struct { long cases, ok, err, na, crashes, skipped_flood; } estat_t;
+typedef struct { long cases, ok, err, na, crashes, skipped_flood, usec; } estat_t;
 static estat_t *estats; /* shared, [NENT] */
 
 typedef struct { int e, s; long lo, hi; double cost; } grp_t;
@@ -1331,40 +1396,146 @@ static void rec_finding(const entry_t *E, int si, long idx, long idx_hi, int vio
     mx_record(&r);
 }
 
-/* crash of case c (child started at `from`): isolate and record. Returns the finding key in keyout. */
-static void handle_crash(const entry_t *E, int si, long from, long c, int st, char *keyout, size_t kn, int confirm)
+/* ---- crash signatures.  The bulk enumeration runs with symbolize=0 (a symbolized report costs ~0.15 s of DWARF
+ * parsing per crash); the first crash with a new signature (kind + top frame offsets) is re-executed ALONE in a fresh,
+ * symbolizing process (`self --desc ...`): that is the isolation step and it yields the stable key. */
+static char self_exe[PATH_MAX];
+static const char *tier_name = "quick";
+typedef struct { uint64_t sig; char key[160]; char what[200]; } sigent_t;
+static sigent_t sigcache[256];
+static int nsigcache;
+
+static uint64_t crash_signature(const char *entry, const char *kind)
 {
-    char kind[80], site[200], line[200], key[160], what[320];
+    uint64_t h = fnv1a(entry, strlen(entry), FNV0);
+    char *p = capbuf;
+    int n = 0;
+    h = fnv1a(kind, strlen(kind), h);
+    if ((p = strstr(capbuf, "runtime error: ")) != NULL)
+    {
+        /* UBSan prints file:line:col itself */
+        char *q = p;
+        while (q > capbuf && q[-1] != '\n')
+        {
+            q--;
+        }
+        h = fnv1a(q, (size_t) (p - q), h);
+    }
+    for (p = capbuf; n < 4 && (p = strstr(p, "\n    #")) != NULL; p++)
+    {
+        char *plus = strstr(p + 1, "+0x"), *eol = strchr(p + 1, '\n');
+        if (eol && strstr(p + 1, "\n\n") == eol)
+        {
+            n = 99; /* end of the first stack after this frame */
+        }
+        if (plus && (!eol || plus < eol))
+        {
+            char *e = plus + 3;
+            while ((*e >= '0' && *e <= '9') || (*e >= 'a' && *e <= 'f'))
+            {
+                e++;
+            }
+            h = fnv1a(plus, (size_t) (e - plus), h);
+            n++;
+        }
+    }
+    return h;
+}
+
+/* run `self --desc <d>` with symbolizing sanitizer options; returns 1 and fills key/what when it reports a violation */
+static int external_replay(const char *d, char *key, size_t kn, char *what, size_t wn)
+{
+    char cmd[PATH_MAX + 1200], line[2048];
+    const char *ao = getenv("C09_ASAN_ORIG"), *uo = getenv("C09_UBSAN_ORIG");
+    FILE *f;
+    int got = 0;
+    snprintf(cmd, sizeof(cmd), "ASAN_OPTIONS='%s' UBSAN_OPTIONS='%s' '%s' --tier %s --desc '%s' 2>/dev/null",
+        ao ? ao : __asan_default_options(), uo ? uo : __ubsan_default_options(), self_exe, tier_name, d);
+    f = popen(cmd, "r");
+    if (!f)
+    {
+        return 0;
+    }
+    while (fgets(line, sizeof(line), f))
+    {
+        char *k = strstr(line, "REPLAY violation=1 key="), *w;
+        if (k)
+        {
+            size_t i = 0;
+            k += 23;
+            while (*k && *k != ' ' && i < kn - 1)
+            {
+                key[i++] = *k++;
+            }
+            key[i] = 0;
+            w = strstr(k, " what=");
+            snprintf(what, wn, "%s", w ? w + 6 : "");
+            what[strcspn(what, "\n")] = 0;
+            got = 1;
+        }
+    }
+    pclose(f);
+    return got;
+}
+
+/* crash of case c (child started at `from`): isolate and record. Returns the finding key in keyout. */
+static void handle_crash(const entry_t *E, int si, long from, long c, int st, char *keyout, size_t kn)
+{
+    char kind[80], site[200], line[200], key[160], what[320], d[256];
     const char *cls = "?";
     char detail[160] = "";
-    int top;
+    int top, i;
+    uint64_t sig;
     mbuf_t m = { obuf, 0 };
     read_capture();
     classify_crash(st, kind, sizeof(kind), site, sizeof(site), line, sizeof(line));
     build_case(E, si, c, &m, &cls, &top, detail, sizeof(detail));
-    snprintf(key, sizeof(key), "%s|%s|%s", E->name, kind, site[0] ? site : cls);
-    if (confirm && c > from && strcmp(kind, "hang"))
+    if (!strcmp(kind, "hang"))
     {
-        /* isolation: the same case alone in a fresh process must die the same way */
-        char k2[80], s2[200], l2[200], key2[160];
-        int st2 = fork_range(E, si, c, c + 1, 0);
-        if (bsh->done)
+        /* the progress marker is exact (timer is re-armed per case); no second 5 s wait */
+        snprintf(key, sizeof(key), "%s|hang|%s", E->name, cls);
+        snprintf(what, sizeof(what), "%s on seed %s %s (%s): %.150s", E->name, seed_name(si), cls, detail, line);
+        rec_finding(E, si, c, c, 1, key, what);
+        snprintf(keyout, kn, "%s", key);
+        return;
+    }
+    sig = crash_signature(E->name, kind);
+    for (i = 0; i < nsigcache; i++)
+    {
+        if (sigcache[i].sig == sig)
         {
-            snprintf(key, sizeof(key), "%s|%s|%s|nonisolated", E->name, kind, site[0] ? site : cls);
-            snprintf(what, sizeof(what), "%s: child died (%s) while running case %ld of seed %s after cases %ld.. in the same process, but the case alone does not reproduce it",
-                E->name, line, c, seed_name(si), from);
-            rec_finding(E, si, from, c, 1, key, what);
-            snprintf(keyout, kn, "%s", key);
+            snprintf(what, sizeof(what), "%s on seed %s %s (%s): %.150s", E->name, seed_name(si), cls, detail, sigcache[i].what);
+            rec_finding(E, si, c, c, 1, sigcache[i].key, what);
+            snprintf(keyout, kn, "%s", sigcache[i].key);
             return;
         }
-        read_capture();
-        classify_crash(st2, k2, sizeof(k2), s2, sizeof(s2), l2, sizeof(l2));
-        snprintf(key2, sizeof(key2), "%s|%s|%s", E->name, k2, s2[0] ? s2 : cls);
-        snprintf(key, sizeof(key), "%s", key2);
-        snprintf(line, sizeof(line), "%s", l2);
     }
-    snprintf(what, sizeof(what), "%s on seed %s %s (%s): %.150s", E->name, seed_name(si), cls, detail, line);
-    rec_finding(E, si, c, c, 1, key, what);
+    /* new signature: isolation = the case alone in a fresh symbolizing process */
+    snprintf(d, sizeof(d), "e=%s;s=%s;i=%ld", E->name, seed_name(si), c);
+    if (external_replay(d, key, sizeof(key), what, sizeof(what)))
+    {
+        if (nsigcache < 256)
+        {
+            char *colon;
+            sigcache[nsigcache].sig = sig;
+            snprintf(sigcache[nsigcache].key, sizeof(sigcache[nsigcache].key), "%s", key);
+            colon = strstr(what, "): ");
+            snprintf(sigcache[nsigcache].what, sizeof(sigcache[nsigcache].what), "%s", colon ? colon + 3 : what);
+            nsigcache++;
+        }
+        rec_finding(E, si, c, c, 1, key, what);
+        snprintf(keyout, kn, "%s", key);
+        return;
+    }
+    /* does not reproduce alone: report the shortest known failing range */
+    snprintf(d, sizeof(d), "e=%s;s=%s;i=%ld-%ld", E->name, seed_name(si), from, c);
+    if (!external_replay(d, key, sizeof(key), what, sizeof(what)))
+    {
+        snprintf(key, sizeof(key), "%s|%s|%s|nonisolated", E->name, kind, site[0] ? site : cls);
+        snprintf(what, sizeof(what), "%s: child died (%s) at case %ld of seed %s after cases %ld.. in the same process; neither the case alone nor the range reproduces it in a fresh process",
+            E->name, line, c, seed_name(si), from);
+    }
+    rec_finding(E, si, from, c, 1, key, what);
     snprintf(keyout, kn, "%s", key);
 }
 
@@ -1380,26 +1551,26 @@ static const char *ok_bucket(long ok, long n)
 }
 
 /* flood control table of one group */
-typedef struct { int top; char key[160]; int n; } flood_t;
+typedef struct { int top, sub; char key[160]; int n; } flood_t;
 
 static void run_group(long gi, void *unused)
 {
     const grp_t *g = &groups[gi];
     const entry_t *E = &entries[g->e];
     estat_t *es = &estats[g->e];
-    flood_t fl[16];
-    int nfl = 0, skip_top = -1;
+    static flood_t fl[64];
+    int nfl = 0;
     long lo;
-    char seen_keys[8][160];
-    int nseen = 0;
     (void) unused;
     worker_setup();
+    nskip_b = 0;
     for (lo = g->lo; lo < g->hi; )
     {
         long hi = lo + BATCH < g->hi ? lo + BATCH : g->hi, pos = lo;
         long b_ok = 0, b_err = 0, b_na = 0, b_crash = 0, b_skip = 0;
         uint64_t rch = FNV0;
         mx_result_t r;
+        double t0 = now_s();
         if (mx_deadline_hit())
         {
             return;
@@ -1407,35 +1578,9 @@ static void run_group(long gi, void *unused)
         while (pos < hi)
         {
             int st, i;
-            /* flood control: skip the rest of a class after FLOOD_N identical crashes */
-            if (skip_top >= 0)
-            {
-                mbuf_t m = { obuf, 0 };
-                const char *cls;
-                char detail[160];
-                int top = -1;
-                long p2 = pos;
-                while (p2 < hi)
-                {
-                    top = -1;
-                    build_case(E, g->s, p2, &m, &cls, &top, detail, sizeof(detail));
-                    if (top != skip_top && top >= 0)
-                    {
-                        break;
-                    }
-                    p2++;
-                }
-                b_skip += p2 - pos;
-                pos = p2;
-                if (pos >= hi)
-                {
-                    break;
-                }
-                skip_top = -1;
-            }
             memset((void *) bsh, 0, sizeof(*bsh));
             st = fork_range(E, g->s, pos, hi, 0);
-            b_ok += bsh->n_ok; b_err += bsh->n_err; b_na += bsh->n_na;
+            b_ok += bsh->n_ok; b_err += bsh->n_err; b_na += bsh->n_na; b_skip += bsh->n_skip;
             rch = fnv1a((void *) &bsh->rch, sizeof(bsh->rch), rch);
             for (i = 0; i < bsh->nfind; i++)
             {
@@ -1449,50 +1594,36 @@ static void run_group(long gi, void *unused)
             {
                 long c = bsh->cur;
                 char key[160];
-                int k, confirm = 1, top = -1;
+                int k, top = -1, sub;
                 mbuf_t m = { obuf, 0 };
-                const char *cls;
+                const char *cls = "?";
                 char detail[160];
                 b_crash++;
-                /* confirm (isolate) only the first occurrence of each key in this group: peek at the key first */
-                {
-                    char kind[80], site[200], line[200], k0[160];
-                    read_capture();
-                    classify_crash(st, kind, sizeof(kind), site, sizeof(site), line, sizeof(line));
-                    build_case(E, g->s, c, &m, &cls, &top, detail, sizeof(detail));
-                    snprintf(k0, sizeof(k0), "%s|%s|%s", E->name, kind, site[0] ? site : cls);
-                    for (k = 0; k < nseen; k++)
-                    {
-                        if (!strcmp(seen_keys[k], k0))
-                        {
-                            confirm = 0;
-                        }
-                    }
-                }
-                handle_crash(E, g->s, pos, c, st, key, sizeof(key), confirm);
-                if (confirm && nseen < 8)
-                {
-                    snprintf(seen_keys[nseen++], 160, "%s", key);
-                }
+                build_case(E, g->s, c, &m, &cls, &top, detail, sizeof(detail));
+                sub = g_sub;
+                handle_crash(E, g->s, pos, c, st, key, sizeof(key));
                 for (k = 0; k < nfl; k++)
                 {
-                    if (fl[k].top == top && !strcmp(fl[k].key, key))
+                    if (fl[k].top == top && fl[k].sub == sub && !strcmp(fl[k].key, key))
                     {
                         break;
                     }
                 }
-                if (k == nfl && nfl < 16)
+                if (k == nfl && nfl < 64)
                 {
                     fl[nfl].top = top;
+                    fl[nfl].sub = sub;
                     snprintf(fl[nfl].key, sizeof(fl[nfl].key), "%s", key);
                     fl[nfl].n = 0;
                     nfl++;
                 }
-                if (k < nfl && ++fl[k].n >= FLOOD_N)
+                if (k < nfl && ++fl[k].n >= FLOOD_N && nskip_b < 64 && !bucket_skipped(top, sub))
                 {
                     char note[160];
-                    skip_top = top;
-                    snprintf(note, sizeof(note), "%s: rest of a mutation class skipped after %d identical crashes in one group (flood control)", E->name, FLOOD_N);
+                    skip_b[nskip_b].top = top;
+                    skip_b[nskip_b].sub = sub;
+                    nskip_b++;
+                    snprintf(note, sizeof(note), "%s: rest of one mutation sub-class (same op / byte value) skipped in a work group after %d identical crashes (flood control)", E->name, FLOOD_N);
                     mx_note_skipped(note);
                 }
                 pos = c + 1;
@@ -1504,6 +1635,7 @@ static void run_group(long gi, void *unused)
         __atomic_fetch_add(&es->na, b_na, __ATOMIC_RELAXED);
         __atomic_fetch_add(&es->crashes, b_crash, __ATOMIC_RELAXED);
         __atomic_fetch_add(&es->skipped_flood, b_skip, __ATOMIC_RELAXED);
+        __atomic_fetch_add(&es->usec, (long) ((now_s() - t0) * 1e6), __ATOMIC_RELAXED);
         memset(&r, 0, sizeof(r));
         snprintf(r.desc, sizeof(r.desc), "e=%s;s=%s;i=%ld-%ld (batch)", E->name, seed_name(g->s), lo, hi - 1);
         snprintf(r.outcome, sizeof(r.outcome), "%s:%s", E->name, ok_bucket(b_ok, b_ok + b_err));
@@ -1622,10 +1754,32 @@ int main(int argc, char **argv)
     cfg.assumptions[2] = "seeds: every *.pem/*.der under testkeys (PEM text, each block as DER, small bundles concatenated) plus c09_seeds.h "
                          "(CRLs, PKCS#12, PKCS#8 plain+PBES2, encrypted PEM, extension-rich certificate) generated with OpenSSL from testkeys material";
     cfg.assumptions[3] = "neighbourhood: one edit from a seed (DER edits re-encode ancestor lengths when the size changes), plus all raw strings of length <= 2 (<= 3 thorough, cheap parsers)";
-    cfg.assumptions[4] = "after 6 identical crashes of one mutation class within one work group the rest of that class in that group is skipped and reported under 'skipped' (flood control)";
+    cfg.assumptions[4] = "after 6 identical crashes of one mutation sub-class (same DER op / same byte value / same class) within one work group (<= 30000 cases) the rest of that sub-class in that group is skipped and reported under 'skipped' (flood control)";
     replay = mx_parse_args(argc, argv, &cfg);
     thorough = !strcmp(cfg.tier, "thorough");
+    tier_name = thorough ? "thorough" : "quick";
     t_case_s = thorough ? 8 : 5;
+    {
+        ssize_t n = readlink("/proc/self/exe", self_exe, sizeof(self_exe) - 1);
+        self_exe[n > 0 ? n : 0] = 0;
+    }
+#if defined(MXV_VARIANT_asan)
+    if (!replay && !getenv("C09_NOSYM") && self_exe[0])
+    {
+        /* bulk enumeration: unsymbolized reports (see crash_signature); original options are kept for the isolating replays */
+        char ao[1024], uo[1024];
+        const char *a0 = getenv("ASAN_OPTIONS"), *u0 = getenv("UBSAN_OPTIONS");
+        setenv("C09_ASAN_ORIG", a0 ? a0 : __asan_default_options(), 1);
+        setenv("C09_UBSAN_ORIG", u0 ? u0 : __ubsan_default_options(), 1);
+        snprintf(ao, sizeof(ao), "%s:symbolize=0", a0 ? a0 : __asan_default_options());
+        snprintf(uo, sizeof(uo), "%s:symbolize=0", u0 ? u0 : __ubsan_default_options());
+        setenv("ASAN_OPTIONS", ao, 1);
+        setenv("UBSAN_OPTIONS", uo, 1);
+        setenv("C09_NOSYM", "1", 1);
+        execv(self_exe, argv);
+        perror("execv");
+    }
+#endif
 
     obuf = malloc(C09_OUTMAX + 16);
     tmpa = malloc(C09_OUTMAX + 16);
@@ -1778,8 +1932,8 @@ int main(int argc, char **argv)
             {
                 continue;
             }
-            o += (size_t) snprintf(extra + o, sizeof(extra) - o, "%s\"%s\": {\"cases\": %ld, \"accepted\": %ld, \"rejected\": %ld, \"not_applicable\": %ld, \"crashes\": %ld, \"skipped_flood\": %ld}",
-                first ? "" : ", ", entries[e].name, es->cases, es->ok, es->err, es->na, es->crashes, es->skipped_flood);
+            o += (size_t) snprintf(extra + o, sizeof(extra) - o, "%s\"%s\": {\"cases\": %ld, \"accepted\": %ld, \"rejected\": %ld, \"not_applicable\": %ld, \"crashes\": %ld, \"skipped_flood\": %ld, \"cpu_s\": %.1f}",
+                first ? "" : ", ", entries[e].name, es->cases, es->ok, es->err, es->na, es->crashes, es->skipped_flood, es->usec / 1e6);
             first = 0;
             if (!mx_deadline_hit() && es->ok == 0 && es->crashes == 0 && (entries[e].classes & C_IDENT))
             {
